@@ -121,6 +121,21 @@ func (d *drv) toEdit(v any) edit {
 	return e
 }
 
+// uniq drops repeated identical rules of a chain.  (Environment restriction: the iptables mock's
+// delete-by-value removes every identical rule at once where the real iptables removes one, so a
+// chain holding the same Felix-marked rule twice cannot be cleaned up against the mock.)
+func uniq(rs []rule) []rule {
+	out := []rule{}
+	seen := map[rule]bool{}
+	for _, r := range rs {
+		if !seen[r] {
+			seen[r] = true
+			out = append(out, r)
+		}
+	}
+	return out
+}
+
 // applyEdit performs an out-of-band edit on the kernel mock (same meaning as EditFn in RTableEnv.tla);
 // returns false when it changes nothing.
 func (d *drv) applyEdit(e edit) bool {
@@ -138,6 +153,9 @@ func (d *drv) applyEdit(e edit) bool {
 		n := append([]rule{}, cur[:p]...)
 		n = append(n, e.Rule)
 		n = append(n, cur[p:]...)
+		if len(uniq(n)) != len(n) {
+			return false
+		}
 		d.be.setKernelChain(e.Chain, n, true)
 	case "del":
 		if !present || e.Pos < 1 || e.Pos > len(cur) {
@@ -170,7 +188,7 @@ func (d *drv) applyEdit(e edit) bool {
 		}
 		d.be.setKernelChain(e.Chain, nil, false)
 	case "addchain":
-		d.be.setKernelChain(e.Chain, e.Rules, true)
+		d.be.setKernelChain(e.Chain, uniq(e.Rules), true)
 	default:
 		panic("unknown edit " + e.Kind)
 	}
@@ -282,7 +300,7 @@ func (d *drv) run(t int, be backend, beh []map[string]any) {
 		mode = tracelog.Str(beh[0]["mode"])
 		if km, ok := beh[0]["kernel"].(map[string]any); ok {
 			for c, rs := range km {
-				k[be.realChain(c)] = toRules(rs)
+				k[be.realChain(c)] = uniq(toRules(rs))
 			}
 		}
 	}
@@ -304,6 +322,9 @@ func (d *drv) run(t int, be backend, beh []map[string]any) {
 
 func main() {
 	logrus.SetOutput(io.Discard)
+	// nftables.Table shells out to the real "nft list table" for diagnostics after every failed
+	// transaction (not overridable); make that lookup fail fast instead of forking
+	os.Setenv("PATH", "/nonexistent")
 	logrus.SetLevel(logrus.ErrorLevel)
 	env := tracelog.GetEnv()
 	lg, err := tracelog.Open(env.OutPath)
